@@ -197,7 +197,7 @@ func replayMain(args []string) error {
 		}
 		res := sch.results()
 		ev := fx.Ev{"op": "run", "tr": k, "i": 0, "mode": "gated", "sc": sc, "sched": b["sched"], "pred": b["pred"],
-			"steps": stepsJSON(sch.steps), "res": res, "bind": sch.bind, "why": sch.bindWhy}
+			"steps": stepsJSON(sch.steps), "res": res, "bind": sch.bind, "why": sch.bindWhy, "bal0": s.bal0}
 		hung := false
 		for _, r := range res {
 			if r.C == "hang" {
@@ -256,8 +256,13 @@ func stressMain(args []string) error {
 	hangs := 0
 	for k := 0; k < *nruns; k++ {
 		pool := w.cat.KvPool
-		if rng.Intn(2) == 0 {
+		switch rng.Intn(5) {
+		case 0, 1:
 			pool = w.cat.TokPool
+		case 2:
+			if len(w.cat.MixPool) > 0 {
+				pool = w.cat.MixPool // mixed transactions: the window between VerifyTx and DoTx is hit by chance
+			}
 		}
 		sc := []string{}
 		excl := map[string]int{} // at most one play and one walk (they may meet: the walk's recovery beside the play)
@@ -316,7 +321,7 @@ func stressMain(args []string) error {
 				out[i] = result{C: "hang", Outs: [][]interface{}{}}
 			}
 		}
-		ev := fx.Ev{"op": "run", "tr": k, "i": 0, "mode": "free", "sc": sc, "steps": [][]interface{}{}, "res": out, "bind": -1}
+		ev := fx.Ev{"op": "run", "tr": k, "i": 0, "mode": "free", "sc": sc, "steps": [][]interface{}{}, "res": out, "bind": -1, "bal0": s.bal0}
 		if hung {
 			hangs++
 			ev["obs"] = s.projectAfterHang()
